@@ -38,6 +38,14 @@ CHECKS = {
    text='BFS by replay over submissions and the 12-set menu in 3 regimes: after every Add(V2)PoolTransactions the pool id set is before or before+new (all-or-nothing), known <=> every (unconfirmed) id was pooled, caller memory byte-identical and not aliased, returned v2 transactions and slices not aliased, PoolTransaction/V2PoolTransaction for every v1/v2/unknown id return exactly the pooled transaction or false without panic.',
    note='v1 submissions are not documented to be copied; depth bound as in evidence.',
    technique='explicit-state model checking of the implementation by history replay with contract oracles', design='§4 C14'),
+ 'C06': dict(level='model_checking', engine='chainmc',
+   text='Explicit-state BFS over block submissions and wallet syncs (chunk 1,2,1000) through SingleAddressWallet.UpdateChainState into a recording store, on storyline universes with the wallet address in each of 4 roles (miner/siafund owner+claimant, spender/renter, payee/host, foundation). After every sync: stored UTXOs == reference ledger outputs of the address at the wallet index (value, maturity, leaf index, proof byte-equal and verifying), events == those of a wallet that followed the same chain linearly, none off-chain, sum(inflow)-sum(outflow) == sum(UTXOs), Balance() agrees at the tip.',
+   note='Store under test is a harness store recording the index the stream left it at (as the quantifier stipulates). Depth/state caps in evidence.',
+   technique='explicit-state model checking of the implementation against a reference ledger and a linear-wallet twin', design='§4 C06'),
+ 'C07': dict(level='model_checking', engine='chainmc + sched',
+   text='(a) Exhaustive enumeration: 8 wallet states x every single Fund/FundV2/Redistribute call for amounts 0..12 SC (+-1 H at boundaries, above balance) x useUnconfirmed x the 4x4x4 defrag option grid; every sequence of length 3 (quick) / 4 (thorough) over fund/release/sign+broadcast/mine+sync/restart/redistribute/split for 3 option settings, v1 and v2 regimes; reservation expiry under a controlled clock. (b) Schedule exploration (preemption bound 2/3) of 2-3 concurrent wallet calls and a block+sync thread on the real wallet and manager. Oracles: inputs owned/mature/unspent by pool/unreserved/unique, conservation, failed call reserves nothing, pool accepts the signed result, Balance == SpendableOutputs == model, no shared inputs.',
+   note='Amount domain is whole siacoins plus boundary hastings; lock-granular interleavings; clock via the vtime seam.',
+   technique='exhaustive operation-sequence enumeration against a spendability model + stateless schedule enumeration with preemption bounding', design='§4 C07'),
  'C17': dict(level='model_checking', engine='kvmc',
    text='Explicit-state enumeration of every applicable operation sequence up to length L (quick 5 / thorough 7 in-memory, 4 / 5 Bolt) over a 2x2x3 bucket/key/value alphabet on MemDB, CacheDB(MemDB), CacheDB(CacheDB(MemDB)), BoltChainDB and CacheDB(BoltChainDB); every Bucket/Get/Iter observation after every operation is compared with a two-map reference model.',
    note='nil-valued puts excluded; nil and empty Get results not distinguished; bbolt atomic commit trusted. Chain-level clause is exercised by the C02 backend replay.',
